@@ -128,9 +128,9 @@ def gen_data(rng, vs, n):
     return out
 
 
-def evaluate_and_explain(text, vs, data, n, pre=None, extra=()):
+def evaluate_and_explain(text, vs, data, n, pre=None, extra=(), sampling=None):
     def go():
-        spec = impl.make_spec("offd", text, vs, single=True, extra_decl=list(extra))
+        spec = impl.make_spec("offd", text, vs, single=True, extra_decl=list(extra), sampling=sampling)
         spec.parse()
         if pre is not None:
             # the object has been used before: another trace evaluated and explained
@@ -149,8 +149,8 @@ def evaluate_and_explain(text, vs, data, n, pre=None, extra=()):
     return impl.guarded(go)
 
 
-def rho0(text, vs, data, n, extra=()):
-    o = impl.eval_offline_discrete(text, vs, data, n, extra_decl=list(extra))
+def rho0(text, vs, data, n, extra=(), sampling=None):
+    o = impl.eval_offline_discrete(text, vs, data, n, extra_decl=list(extra), **({"sampling": sampling} if sampling else {}))
     return o if o[0] != "ok" else ("ok", o[1][0][1])
 
 
@@ -195,18 +195,25 @@ def compare_gen(ctx, what, ex, mg, text, rep):
     ctx.count("translated-explainer agrees")
 
 
-def check_case(ctx, f, data, n, rng, mo=None, mg=None, pre="random", text=None, extra=()):
+def check_case(ctx, f, data, n, rng, mo=None, mg=None, pre="random", text=None, extra=(), half=False):
     """`text` / `extra`: a modular text (named sub-formulas) whose inlined form is `f`; then only sufficiency is judged (explain()
     also explains the named assertions that are violated themselves, and the mirror knows single formulas)."""
     vs = sorted(data)
     modular = text is not None
     text = text or "out = " + F.to_text(f)
+    sampling = None
+    if half and not modular:
+        # the same bounds as durations: period 500 ms, a bound of k samples written k/2 seconds (F52: the explainer has to read
+        # the bounds in samples, as evaluate() does)
+        text = "out = " + F.to_text(f, bound=lambda k: ("%ds" % (k // 2)) if k % 2 == 0 else ("%d.5s" % (k // 2)))
+        sampling = (500, "ms", 0.1)
+        ctx.count("bounds-as-durations")
     if pre == "random":
         pre = gen_data(rng, vs, rng.randint(1, 8)) if rng.random() < 0.25 else None
     if pre is not None:
         ctx.count("reused-object")
-    out = evaluate_and_explain(text, vs, data, n, pre, extra)
-    rep = {"pre": pre, "extra": list(extra), "modular": modular, "spec": text, "formula": F.to_proto(f), "data": data, "n": n, "impl": out}
+    out = evaluate_and_explain(text, vs, data, n, pre, extra, sampling)
+    rep = {"pre": pre, "extra": list(extra), "modular": modular, "half": bool(half), "spec": text, "formula": F.to_proto(f), "data": data, "n": n, "impl": out}
     if out[0] != "ok":
         return Violation("evaluate()/explain() raised %r: %s" % (out[1:], text), rep, stream="expl")
     r0, ex = out[1]
@@ -268,7 +275,7 @@ def check_case(ctx, f, data, n, rng, mo=None, mg=None, pre="random", text=None, 
         for (v, t), val in tr.items():
             d2[v][t] = val
         ctx.evaluations += 1
-        o2 = rho0(text, vs, d2, n, extra)
+        o2 = rho0(text, vs, d2, n, extra, sampling)
         if o2[0] != "ok":
             return Violation("re-evaluation raised %r: %s" % (o2[1:], text), dict(rep, reassigned=d2), stream="expl")
         if o2[1] != o2[1]:
@@ -318,7 +325,8 @@ def explore(ctx, rng, count):
                                                                         "once", "hist", "ev", "alw"):
                 ctx.count("op:" + o)
         ctx.evaluations += 1
-        v = check_case(ctx, f, data, n, rng, mo, mg)
+        half = rng.random() < 0.15 and any(x[0] == "tb1" for x in F.subformulas(f))
+        v = check_case(ctx, f, data, n, rng, mo, mg, half=half)
         if v is None:
             ctx.traces_validated += 1
             if len(ctx.samples) < 3 and F.depth(f) >= 3:
@@ -489,7 +497,8 @@ def replay(ctx, obj):
     data = {k: [float(x) for x in v] for k, v in obj["data"].items()}
     pre = {k: [float(x) for x in v_] for k, v_ in obj["pre"].items()} if obj.get("pre") else None
     mtext, extra = (obj["spec"], tuple(obj.get("extra") or ())) if obj.get("modular") else (None, ())
-    v = check_case(Ctx(ctx.id, ctx.tier, ctx.seed), f, data, obj["n"], random.Random(0), pre=pre, text=mtext, extra=extra)
+    v = check_case(Ctx(ctx.id, ctx.tier, ctx.seed), f, data, obj["n"], random.Random(0), pre=pre, text=mtext, extra=extra,
+                   half=bool(obj.get("half")))
     if v is None and "reassigned" in obj:
         d2 = {k: [float(x) for x in vv] for k, vv in obj["reassigned"].items()}
         text = mtext or "out = " + F.to_text(f)
